@@ -244,7 +244,9 @@ Contract(RC, 'HTTPWARCRecorderSession._record_revisit', dict(HS, payload_offset=
     requires=['%s is not None' % RR, '%s.block_file is not None' % RR, '%s.block_file.pos == 0' % RR, 'payload_offset >= 0', 'self._url_table is not None',
               'norm("WARC-Target-URI") in %s.fields.map' % RR],
     modifies=['%s.block_file.content' % RR, '%s.block_file.pos' % RR, '%s.fields.map' % RR, '%s.fields.count' % RR, 'all_of("Hasher.fed")'],
-    ensures=[('still-at-the-start', '%s.block_file.pos == 0' % RR)],
+    ensures=[('still-at-the-start', '%s.block_file.pos == 0' % RR),
+             ('length-kept-or-cut-at-the-payload-offset', 'implies(payload_offset <= len(old(%s.block_file.content)), len(%s.block_file.content) == len(old(%s.block_file.content)) or len(%s.block_file.content) == payload_offset)' % (RR, RR, RR, RR), {'C05'}),
+             ('block-kept-or-cut-at-the-payload-offset', 'implies(payload_offset <= len(old(%s.block_file.content)), %s.block_file.content == old(%s.block_file.content) or %s.block_file.content == old(%s.block_file.content)[:payload_offset])' % (RR, RR, RR, RR, RR), {'C05'})],
     raises={'OSError': []}, note='a revisit keeps the header block (the first payload_offset bytes) and drops the payload')
 Contract(RC, 'HTTPWARCRecorderSession.end_response', dict(HS, response=TObj('HTTPResponse')), prop='C04',
     names=dict(_SESSION_NAMES, **{'HTTPResponse.to_bytes': 'HTTPResponse.to_bytes@len'}),
